@@ -18,7 +18,12 @@
 //     setUpEverything()): the method-level kinds apply to them like to any method, and they are only put into classes
 //     that have another ordinary method and fewer than 18 ordinary methods, so that the class-level verdicts are the
 //     same whether or not one calls them getters/setters;
-//   - one top-level type per file, no nested / anonymous / local types, no lambdas, no enums / records / annotations;
+//   - interface methods (and only those) may have their modifiers and/or own type-parameter list on the line above
+//     the return type (`default <T extends Comparable<T>>` / `T pick(…) {`): the declaration then starts on that
+//     upper line. Class methods always keep modifiers, return type and name on one line;
+//   - lambdas only as one-line expression lambdas in local initialisers (typed `(Integer x, Integer y) -> x + y` or
+//     inferred `(x, y) -> x + y`): their parameters are not parameters of the method, and no statement hides in them;
+//   - one top-level type per file, no nested / anonymous / local types, no enums / records / annotations;
 //   - constructors only in classes whose verdicts do not depend on whether a constructor is a method.
 package smellgen
 
@@ -41,16 +46,22 @@ type Method struct {
 	Role string `json:"role"` // plain | getter | setter (by NAME: get/set + upper-case letter)
 	// AccessorNamed: an ordinary method (own parameters, statements, any length) that merely carries a get…/set… name,
 	// e.g. getReport(a,b,c,d,e,f) or a 31-line setUpEverything(); Role is getter/setter for it.
-	AccessorNamed bool   `json:"accessor_named,omitempty"`
-	Params        int    `json:"params"`
-	Varargs       bool   `json:"varargs,omitempty"`
-	Generic       bool   `json:"generic,omitempty"` // declares its own type parameter: `<T> void name(…)`
-	HasBody       bool   `json:"has_body"`
-	StartLine     int    `json:"start_line"`
-	CloseLine     int    `json:"close_line"`
-	TopIfs        int    `json:"top_ifs"`
-	TopSwitches   int    `json:"top_switches"`
-	Conds         []Cond `json:"conds,omitempty"`
+	AccessorNamed bool `json:"accessor_named,omitempty"`
+	Params        int  `json:"params"`
+	Varargs       bool `json:"varargs,omitempty"`
+	Generic       bool `json:"generic,omitempty"` // declares its own type parameter: `<T> void name(…)`
+	HasBody       bool `json:"has_body"`
+	// HeadSplit: (interface methods) the modifiers and/or the method's own type-parameter list stand on StartLine, the
+	// return type and the name on the next line: `default <T extends Comparable<T>>` / `T pick(T a, T b) {`
+	HeadSplit bool `json:"head_split,omitempty"`
+	// TypedLambdaParams: explicitly typed lambda parameters in the body (`(Integer x, Integer y) -> x + y`); they are
+	// not parameters of the method
+	TypedLambdaParams int    `json:"typed_lambda_params,omitempty"`
+	StartLine         int    `json:"start_line"`
+	CloseLine         int    `json:"close_line"`
+	TopIfs            int    `json:"top_ifs"`
+	TopSwitches       int    `json:"top_switches"`
+	Conds             []Cond `json:"conds,omitempty"`
 	// decoys: things that must not count
 	NestedIfs      int   `json:"nested_ifs,omitempty"`
 	NestedSwitches int   `json:"nested_switches,omitempty"`
@@ -96,7 +107,7 @@ func (p *Project) ShapeKey() string {
 		fmt.Fprintf(&sb, "[%s f%d c%d", c.Kind, c.Fields, c.Ctors)
 		for i := range c.Methods {
 			m := &c.Methods[i]
-			fmt.Fprintf(&sb, "|%s,%s%v,p%d,v%v%v,l%d,i%d,s%d,n%d/%d/%d", m.Form, m.Role, m.AccessorNamed, m.Params, m.Varargs, m.Generic, m.CloseLine-m.StartLine, m.TopIfs, m.TopSwitches, m.NestedIfs, m.NestedSwitches, m.ElseIfs)
+			fmt.Fprintf(&sb, "|%s,%s%v,h%v,L%d,p%d,v%v%v,l%d,i%d,s%d,n%d/%d/%d", m.Form, m.Role, m.AccessorNamed, m.HeadSplit, m.TypedLambdaParams, m.Params, m.Varargs, m.Generic, m.CloseLine-m.StartLine, m.TopIfs, m.TopSwitches, m.NestedIfs, m.NestedSwitches, m.ElseIfs)
 			for _, cd := range m.Conds {
 				fmt.Fprintf(&sb, ";%d.%d", cd.StartLine-cd.IfLine, cd.EndLine-cd.StartLine)
 			}
@@ -141,9 +152,23 @@ func SelfCheck(p *Project) error {
 			} else if lower {
 				return fmt.Errorf("%s: plain method %s starts with get/set", c.RelPath, m.Name)
 			}
-			hl, ok := at(m.StartLine)
-			if !ok || !strings.Contains(hl, " "+m.Name+"(") {
-				return fmt.Errorf("%s: line %d does not declare %s: %q", c.RelPath, m.StartLine, m.Name, hl)
+			nameLine := m.StartLine
+			if m.HeadSplit {
+				// the first line holds modifiers / type parameters only, the name follows on the next line
+				first, _ := at(m.StartLine)
+				ft := strings.TrimSpace(first)
+				if c.Kind != "interface" || ft == "" || strings.ContainsAny(ft, "(){};") ||
+					!(strings.HasPrefix(ft, "default") || strings.HasPrefix(ft, "static") || strings.HasPrefix(ft, "public") || strings.HasPrefix(ft, "<")) {
+					return fmt.Errorf("%s: line %d is not a modifier / type-parameter line: %q", c.RelPath, m.StartLine, first)
+				}
+				nameLine++
+			}
+			hl, ok := at(nameLine)
+			if !ok || !(strings.Contains(hl, " "+m.Name+"(") || strings.HasPrefix(strings.TrimSpace(hl), m.Name+"(")) {
+				return fmt.Errorf("%s: line %d does not declare %s: %q", c.RelPath, nameLine, m.Name, hl)
+			}
+			if m.TypedLambdaParams > 0 && (m.CloseLine < m.StartLine || !strings.Contains(strings.Join(lines[m.StartLine-1:m.CloseLine], "\n"), ") -> ")) {
+				return fmt.Errorf("%s: %s planted %d typed lambda parameters but the text has no such lambda", c.RelPath, m.Name, m.TypedLambdaParams)
 			}
 			if !m.HasBody {
 				if m.CloseLine != 0 || m.TopIfs+m.TopSwitches+len(m.Conds) != 0 {
